@@ -234,6 +234,27 @@ def _build(case):
         divs = [None] + [d for d in (32, 64, 128, K // 2 if K % 2 == 0 else None) if d and K % d == 0 and d <= K]
         w = quantize_weight(wf, wqt, 0, divs[case["group"] % len(divs)])
     b = gen.clamp_finite(torch.randn(N, generator=g, dtype=torch.float64), dtype) if case["bias"] else None
+    if case.get("bigbias") and coherent and not isinstance(x, QTensor) or (case.get("bigbias") and coherent and isinstance(x, QBytesTensor) and x.axis is None):
+        # a product that leaves the range of float16 on its own while product + bias does not (a large negative bias on
+        # coherent sums): "finite whenever the reference is representable"
+        xd = (x.dequantize() if isinstance(x, QTensor) else x).to(torch.float64)
+        r = xd.reshape(-1, K) @ w.dequantize().to(torch.float64).t()
+        peak = float(r.abs().max())
+        if peak > 0 and isinstance(w, QBytesTensor) and w.axis == 0:
+            f = 9e4 / peak
+            fx = min(f, 200.0 / max(float(xd.abs().max()), 1e-30))
+            fw = f / fx
+            if fw != 1.0:
+                w = quantize_weight(gen.clamp_finite(w.dequantize().to(torch.float64) * fw, dtype), w.qtype, 0)
+                r = xd.reshape(-1, K) @ w.dequantize().to(torch.float64).t() / fw
+            f = fx * fw
+            xs = gen.clamp_finite(xd * fx, dtype)
+            if isinstance(x, QTensor):
+                s_ = absmax_scale(xs, x.qtype)
+                x = quantize_laid_out(xs, x.qtype, torch.where(s_ > 0, s_, torch.ones_like(s_)), "contig")
+            else:
+                x = xs
+            b = gen.clamp_finite(-0.7 * (r * f).mean(0), dtype)
     return x, w, b
 
 
@@ -437,6 +458,12 @@ def run_grid(ctx):
                                 # weights quantized as an (in, out) matrix and used transposed (tied embeddings, Conv1D checkpoints)
                                 cs.append({"dtype": dt, "act": act, "wq": wq, "rows": r, "brank": 1 + (r % 2), "inf": k, "outf": n, "bias": (r + k) % 2 == 0, "mode": "real", "entry": "linear",
                                            "layout": "contig", "ascale": "absmax", "group": 0, "per_tensor_w": False, "wlayout": "tied", "sign": "mixed", "seed": ctx.seed * 1000 + r + 7 * k + 13 * n + 5})
+                            if entry in ("mm", "bmm") and wq not in ("qint4", "qint2") and act != "float":
+                                # torch.mm / bmm on VIEWS of the quantized operands (an expanded row, a transposed or sliced batch): the
+                                # integer GEMM reads the strides of its first operand
+                                for lay in ("expanded", "transposed", "sliced"):
+                                    cs.append({"dtype": dt, "act": act, "wq": wq, "rows": r, "brank": 1, "inf": k, "outf": n, "bias": False, "mode": "exact", "entry": entry,
+                                               "layout": lay, "ascale": "absmax", "group": 0, "per_tensor_w": ptw, "seed": ctx.seed * 1000 + r + 7 * k + 13 * n + 6})
                             if entry == "linear" and act == "float" and (r + n) % 2 == 0:
                                 # float activations held in a Parameter
                                 cs.append({"dtype": dt, "act": act, "wq": wq, "rows": r, "brank": 1 + (r % 2), "inf": k, "outf": n, "bias": (r + k) % 2 == 1, "mode": "exact", "entry": "linear",
@@ -444,6 +471,14 @@ def run_grid(ctx):
                             cs.append({"dtype": dt, "act": act, "wq": wq, "rows": r, "brank": 1 if entry != "linear" else 1 + (r % 2), "inf": k, "outf": n,
                                        "bias": (r + k) % 2 == 0, "mode": "exact", "entry": entry, "layout": "expanded" if (entry == "linear" and (r + k + n) % 5 == 0) else "contig", "ascale": "absmax", "group": 0,
                                        "per_tensor_w": ptw, "seed": ctx.seed * 1000 + r + 7 * k + 13 * n})
+    for dt in ("fp16", "bf16"):
+        for act in ACTS:
+            for wq in WQ:
+                if wq in ("qint4", "qint2"):
+                    continue
+                for (r, k, n) in [(4, 64, 8), (2, 160, 3), (24, 16, 8)]:
+                    cs.append({"dtype": dt, "act": act, "wq": wq, "rows": r, "brank": 1, "inf": k, "outf": n, "bias": True, "mode": "real", "entry": "linear", "layout": "contig", "ascale": "absmax",
+                               "group": 0, "per_tensor_w": False, "sign": "one-sided", "bigbias": True, "seed": 4 * (ctx.seed * 100 + k + n) + 1})
     # large coherent sums: one-sided float activations of magnitude 20 against near-constant weight rows -- the unscaled sum
     # of activation x code products leaves the range of float16 although the result does not
     for dt in ("fp16", "bf16", "fp32"):
